@@ -14,4 +14,5 @@ if [ -z "$PROPS" ]; then PROPS=$(python3 -c "import json;print(' '.join(c['prope
 OUT=$(mktemp -d)
 "$BIN" -property "$(echo $PROPS | tr ' ' ',')," -tier quick -repo "$REPO" -verif /verif -out "$OUT" > "$OUT/all.log" 2>&1
 awk '/^hagcheck property=/{split($2,a,"="); p=a[2]} /rule=[A-Za-z0-9-]+ site=/{sub(/^ +/,""); print p": "$0} /^UNDECIDED/{print}' "$OUT/all.log" | cut -c1-250 | sort -u
+echo "CHECKED $(grep -c '^hagcheck property=' "$OUT/all.log") properties"
 rm -rf "$OUT"
